@@ -817,3 +817,38 @@ func c13MappedStream(c *Ctx, r *Result) {
 		c13DirectMapped(c, r, i, c.Rng.Int63(), nil, nil, "")
 	}
 }
+
+// mroCollect: stage MK with the signature's outputs, called once per key of a map input; the
+// struct of its outputs, per key, is the single top-level output `res : map<COLLECTED>`.
+func (s *c13Sig) mroCollect(keys []string) string {
+	var sb strings.Builder
+	for _, f := range s.Filetypes {
+		sb.WriteString("filetype " + f + ";\n")
+	}
+	sb.WriteString("\n")
+	for _, st := range s.Structs {
+		sb.WriteString("struct " + st.Mro + "(\n")
+		for _, m := range st.Ms {
+			sb.WriteString(c13MroMember(m, ""))
+		}
+		sb.WriteString(")\n\n")
+	}
+	sb.WriteString("struct COLLECTED(\n")
+	for _, p := range s.Params {
+		sb.WriteString(c13MroMember(p, ""))
+	}
+	sb.WriteString(")\n\nstage MK(\n    in int x,\n")
+	for _, p := range s.Params {
+		sb.WriteString(c13MroMember(p, "out "))
+	}
+	sb.WriteString("    src comp \"x\",\n)\n\npipeline TOP(\n    in map<int> xs,\n    out map<COLLECTED> res,\n)\n{\n    map call MK(\n        x = split self.xs,\n    )\n\n    return (\n        res = MK,\n    )\n}\n\ncall TOP(\n    xs = {\n")
+	for i, k := range keys {
+		var kb strings.Builder
+		enc := json.NewEncoder(&kb)
+		enc.SetEscapeHTML(false)
+		enc.Encode(k)
+		fmt.Fprintf(&sb, "        %s: %d,\n", strings.TrimSpace(kb.String()), i+1)
+	}
+	sb.WriteString("    },\n)\n")
+	return sb.String()
+}
